@@ -35,126 +35,309 @@ void h_chunk_size(void) { nni_http_chunk *ch; VP_HAVOC_GHOSTS(); nni_http_chunk_
 void h_chunk_data(void) { nni_http_chunk *ch; VP_HAVOC_GHOSTS(); nni_http_chunk_data(ch); VP_CANARY(); }
 
 /* ------------------------------------------------------------------------
- * SEGMENTATION LEMMA (2-safety, real functions, no contracts involved).
+ * SEGMENTATION LEMMA, in two machine-checked halves.
  *
- * For every decoder state S (any state of the machine, any accumulated size /
- * line / total / maximum, and in CS_DATA any partially filled last chunk),
- * every buffer buf[0..n) with n <= SEG_N, every cut k <= n and every
- * allocation-failure schedule:
- *     run A:  parse(S, buf[0..n))
- *     run B:  parse(S, buf[0..k)); if that says NNG_EAGAIN: parse(., buf[k..n))
- * A and B give the same verdict and the same total number of bytes consumed;
- * if the verdict is 0 or NNG_EAGAIN they leave the same decoder state: state,
- * size, line, total, number of chunks, and for every chunk the same geometry,
- * fill level and bytes.  Also: NNG_EAGAIN always consumes the whole piece.
+ * The direct 2-safety harness (real nni_http_chunks_parse three times: once
+ * over buf[0..n), then over buf[0..k) and buf[k..n)) did not finish: 1.4 M
+ * variables and > 5 min already for n <= 2 (measured), because CBMC merges
+ * the whole chunk store at every branch of three inlined decoders.  It is
+ * replaced by a REFERENCE DECODER vp_ref_parse, an executable transcription
+ * of RFC 7230 section 4.1 over an abstract state (no pointers, one byte at a
+ * time, no bulk copies), and two units:
  *
- * Because S is arbitrary, the statement for one cut extends by induction to
- * any number of cuts of streams of any length made of pieces <= SEG_N.
- * Bound (grade Pb): n <= SEG_N bytes per compared stretch; initial chunk of
- * at most SEG_CS data bytes.
+ *  (1) chunks_parse_refines_ref: for every decoder state S, every buffer of
+ *      n <= SEG_N bytes and every allocation-failure schedule, ONE call of the
+ *      real nni_http_chunks_parse gives the same verdict, the same number of
+ *      bytes consumed and the same final decoder state (state, size, line,
+ *      total, number of chunks, geometry / fill level / bytes of every chunk)
+ *      as vp_ref_parse.
+ *  (2) ref_seg_lemma: vp_ref_parse over buf[0..n) equals vp_ref_parse over
+ *      buf[0..k) followed, if that says NNG_EAGAIN, by vp_ref_parse over
+ *      buf[k..n), for every k <= n <= REF_N; and NNG_EAGAIN always consumes
+ *      the whole piece.
+ *
+ * (1) holds from EVERY state, hence also for the second call of a split run;
+ * so real(0..n) = ref(0..n) = ref(k..n) o ref(0..k) = real(k..n) o real(0..k).
+ * Because S is arbitrary the statement extends by induction to any number of
+ * cuts of streams of any length made of pieces <= SEG_N bytes.
  */
 #ifndef SEG_N
-#define SEG_N 6
+#define SEG_N 4
 #endif
-#ifndef SEG_CS
-#define SEG_CS 4
+#ifndef REF_N
+#define REF_N 8
 #endif
+#define REF_NCH 4           /* chunks the reference state can describe */
+#define REF_DATA VP_LEM_OBJ /* bytes (data + CRLF) stored per chunk */
 
-nni_http_chunk g_seg_ch[2];
-char           g_seg_d[2][SEG_CS + 2];
+typedef struct {
+	unsigned st; /* enum chunk_state */
+	size_t   size, line, total, maxsz;
+	size_t   nch;                      /* number of chunks */
+	size_t   csize[REF_NCH];           /* data size of chunk i */
+	size_t   cfill[REF_NCH];           /* bytes (data + CRLF) stored so far */
+	uint8_t  cbyte[REF_NCH][REF_DATA]; /* the stored bytes */
+	size_t   aseq;                     /* allocation requests issued so far */
+} vp_ref;
 
-static void
-vp_seg_mk(struct nng_http_chunks *cl, int which, enum chunk_state st, size_t size, size_t line,
-    size_t total, size_t maxsz, size_t csize, size_t cresid, const uint8_t *fill)
+static bool
+vp_ref_refused(vp_ref *r)
 {
-	cl->cl_state = st;
-	cl->cl_size  = size;
-	cl->cl_line  = line;
-	cl->cl_total = total;
-	cl->cl_maxsz = maxsz;
-	g_chl[which].addr = &cl->cl_chunks;
-	g_chl[which].n    = 0;
-	g_chl[which].last = NULL;
-	if (st == CS_DATA) {
-		nni_http_chunk *ch = &g_seg_ch[which];
-		ch->c_size  = csize;
-		ch->c_alloc = csize + 2;
-		ch->c_resid = cresid;
-		ch->c_data  = &g_seg_d[which][0];
-		for (size_t i = 0; i < SEG_CS + 2; i++) {
-			if (i < csize + 2) {
-				ch->c_data[i] = (char) fill[i];
-			}
-		}
-		g_chl[which].n       = 1;
-		g_chl[which].last    = ch;
-		g_chl[which].item[0] = ch;
-	}
+	size_t i = r->aseq;
+	r->aseq++;
+	return (i >= 8 * sizeof(size_t) ? true : ((g_fail_mask >> i) & 1) != 0);
 }
 
-void
-h_seg_lemma(void)
+/* one octet, RFC 7230 4.1; returns 0 or the error; *took = 1 iff the octet
+ * was consumed */
+static int
+vp_ref_step(vp_ref *r, uint8_t c, size_t *took)
 {
-	struct nng_http_chunks a, b;
-	uint8_t  bufa[SEG_N], bufb[SEG_N], fill[SEG_CS + 2];
-	size_t   n = nondet_size_t(), k = nondet_size_t();
-	enum chunk_state st;
-	size_t   size = nondet_size_t(), line = nondet_size_t(), total = nondet_size_t(), maxsz = nondet_size_t();
-	size_t   csize = nondet_size_t(), cresid = nondet_size_t();
-	size_t   lena = 0, len1 = 0, len2 = 0, lenb;
-	nng_err  rva, rvb;
-
-	/* the quantified variables of the lemma (bounds stated in spec.json) */
-	__CPROVER_assume(n <= SEG_N && k <= n);
-	__CPROVER_assume(st <= CS_DONE);
-	/* representation invariant of a chunk being filled (established by
-	 * chunk_ingest_newline, kept by chunk_ingest_data: see their contracts) */
-	__CPROVER_assume(csize >= 1 && csize <= SEG_CS && cresid >= 1 && cresid <= csize + 2);
-	for (size_t i = 0; i < SEG_N; i++) {
-		bufb[i] = bufa[i];
+	*took = 0;
+	switch (r->st) {
+	case CS_INIT: /* chunk-size = 1*HEXDIG */
+	case CS_LEN:
+		if (CH_IS_HEX(c)) {
+			if (CH_SIZE_OVERFLOWS(r->size)) {
+				return (NNG_EMSGSIZE);
+			}
+			r->size = r->size * 16 + CH_HEXVAL(c);
+			r->st   = CS_LEN;
+		} else if (r->st == CS_LEN && c == ';') {
+			r->st = CS_EXT;
+		} else if (r->st == CS_LEN && c == '\r') {
+			r->st = CS_CR;
+		} else {
+			return (NNG_EPROTO);
+		}
+		break;
+	case CS_EXT: /* chunk-ext, ignored; HTAB / obs-text refused like the code does */
+		if (c == '\r') {
+			r->st = CS_CR;
+		} else if (!CH_IS_VCHAR_SP(c)) {
+			return (NNG_EPROTO);
+		}
+		break;
+	case CS_CR: /* the LF of the size line */
+		if (c != '\n') {
+			return (NNG_EPROTO);
+		}
+		if (r->size == 0) { /* last-chunk */
+			r->line = 0;
+			r->st   = CS_TRLR;
+			break;
+		}
+		if (CH_TOO_BIG(r->size, r->total, r->maxsz)) {
+			return (NNG_EMSGSIZE);
+		}
+		if (vp_ref_refused(r)) { /* chunk record */
+			return (NNG_ENOMEM);
+		}
+		{
+			bool refused = vp_ref_refused(r); /* data + CRLF */
+			if (refused || r->size + 2 > REF_DATA) {
+				return (NNG_ENOMEM);
+			}
+		}
+		__CPROVER_assert(r->nch < REF_NCH, "reference decoder: chunk table large enough for the bound");
+		r->csize[r->nch] = r->size;
+		r->cfill[r->nch] = 0;
+		r->nch++;
+		r->total += r->size;
+		r->st = CS_DATA;
+		break;
+	case CS_DATA: { /* chunk-data CRLF: size octets, then CR LF, judged when complete */
+		size_t i = r->nch - 1;
+		r->cbyte[i][r->cfill[i]] = c;
+		r->cfill[i]++;
+		*took = 1;
+		if (r->cfill[i] == r->csize[i] + 2) {
+			if (r->cbyte[i][r->csize[i]] != '\r' || r->cbyte[i][r->csize[i] + 1] != '\n') {
+				r->cfill[i]--; /* the code leaves the fill level of a refused chunk alone; never compared */
+				return (NNG_EPROTO);
+			}
+			r->st   = CS_INIT;
+			r->size = 0;
+			r->line = 0;
+		}
+		return (0);
 	}
-	g_alloc_sched = true;
-	g_fail_mask   = nondet_size_t();
+	case CS_TRLR: /* trailer-part: header lines */
+		if (c == '\r') {
+			r->st = CS_TRLRCR;
+		} else if (!CH_IS_VCHAR_SP(c)) {
+			return (NNG_EPROTO);
+		} else {
+			r->line++;
+		}
+		break;
+	case CS_TRLRCR:
+		if (c != '\n') {
+			return (NNG_EPROTO);
+		}
+		if (r->line == 0) {
+			r->st = CS_DONE; /* the empty line that ends the body */
+		} else {
+			r->line = 0;
+			r->st   = CS_TRLR;
+		}
+		break;
+	default:
+		return (NNG_EPROTO);
+	}
+	*took = 1;
+	return (0);
+}
+
+static int
+vp_ref_parse(vp_ref *r, const uint8_t *buf, size_t n, size_t *lenp)
+{
+	size_t i = 0;
+	while (r->st != CS_DONE && i < n) {
+		size_t took;
+		int    rv = vp_ref_step(r, buf[i], &took);
+		i += took;
+		if (rv != 0) {
+			*lenp = i;
+			return (rv);
+		}
+	}
+	*lenp = i;
+	return (r->st == CS_DONE ? 0 : NNG_EAGAIN);
+}
+
+/* arbitrary reference state within the representation invariant */
+static void
+vp_ref_any(vp_ref *r)
+{
+	vp_ref x; /* uninitialised: arbitrary */
+	*r = x;
+	__CPROVER_assume(r->st <= CS_DONE);
+	__CPROVER_assume(r->nch <= 1);
+	__CPROVER_assume(r->nch == 0 || (r->csize[0] >= 1 && r->csize[0] <= REF_DATA - 2 && r->cfill[0] <= r->csize[0] + 2));
+	__CPROVER_assume(r->st != CS_DATA || (r->nch == 1 && r->cfill[0] < r->csize[0] + 2));
+	r->aseq = 0;
+}
+
+nni_http_chunk g_seg_ch;
+char           g_seg_d[REF_DATA];
+
+void
+h_refines_ref(void)
+{
+	struct nng_http_chunks cl;
+	vp_ref   r;
+	uint8_t  buf[SEG_N], bufr[SEG_N];
+	size_t   n = nondet_size_t();
+	size_t   len = 0, lenr = 0;
+	int      rv, rvr;
+
+	__CPROVER_assume(n <= SEG_N);
 	g_k           = nondet_size_t();
+	g_fail_mask   = nondet_size_t();
+	g_alloc_sched = true;
+	g_alloc_seq   = 0;
+	g_pool_nch    = 0;
+	g_pool_nd     = 0;
+	vp_ref_any(&r);
 
-	vp_seg_mk(&a, 0, st, size, line, total, maxsz, csize, cresid, fill);
-	vp_seg_mk(&b, 1, st, size, line, total, maxsz, csize, cresid, fill);
-
-	g_alloc_seq = 0;
-	rva         = nni_http_chunks_parse(&a, bufa, n, &lena);
-
-	g_alloc_seq = 0;
-	rvb         = nni_http_chunks_parse(&b, bufb, k, &len1);
-	lenb        = len1;
-	if (rvb == NNG_EAGAIN) {
-		__CPROVER_assert(len1 == k, "seg: NNG_EAGAIN consumed the whole first piece");
-		rvb  = nni_http_chunks_parse(&b, bufb + k, n - k, &len2);
-		lenb = k + len2;
+	/* the concrete decoder in the state the reference state describes */
+	cl.cl_state   = (enum chunk_state) r.st;
+	cl.cl_size    = r.size;
+	cl.cl_line    = r.line;
+	cl.cl_total   = r.total;
+	cl.cl_maxsz   = r.maxsz;
+	g_chl[0].addr = &cl.cl_chunks;
+	g_chl[0].n    = r.nch;
+	g_chl[0].last = NULL;
+	g_chl[1].addr = NULL;
+	if (r.nch == 1) {
+		g_seg_ch.c_size  = r.csize[0];
+		g_seg_ch.c_alloc = r.csize[0] + 2;
+		g_seg_ch.c_resid = r.csize[0] + 2 - r.cfill[0];
+		g_seg_ch.c_data  = g_seg_d;
+		for (size_t i = 0; i < REF_DATA; i++) {
+			g_seg_d[i] = (char) r.cbyte[0][i];
+		}
+		g_chl[0].last    = &g_seg_ch;
+		g_chl[0].item[0] = &g_seg_ch;
+	}
+	for (size_t i = 0; i < SEG_N; i++) {
+		bufr[i] = buf[i];
 	}
 
-	__CPROVER_assert(rva == rvb, "seg: same verdict however the stream is cut");
-	__CPROVER_assert(lena == lenb, "seg: same number of bytes consumed");
-	__CPROVER_assert(rva != NNG_EAGAIN || lena == n, "seg: NNG_EAGAIN consumed everything");
-	if (rva == 0 || rva == NNG_EAGAIN) {
-		__CPROVER_assert(a.cl_state == b.cl_state, "seg: same state");
-		__CPROVER_assert(a.cl_size == b.cl_size, "seg: same accumulated size");
-		__CPROVER_assert(a.cl_line == b.cl_line, "seg: same line count");
-		__CPROVER_assert(a.cl_total == b.cl_total, "seg: same total");
-		__CPROVER_assert(g_chl[0].n == g_chl[1].n, "seg: same number of chunks");
-		__CPROVER_assert(g_chl[0].n <= VP_MAXCH, "seg: chunk list within the model");
-		__CPROVER_assert((g_chl[0].last == NULL) == (g_chl[1].last == NULL), "seg: last chunk");
-		for (size_t i = 0; i < VP_MAXCH; i++) {
-			if (i < g_chl[0].n) {
-				nni_http_chunk *ca = g_chl[0].item[i], *cb = g_chl[1].item[i];
-				__CPROVER_assert((i + 1 == g_chl[0].n) ? (g_chl[0].last == ca && g_chl[1].last == cb) : 1, "seg: last member");
-				__CPROVER_assert(ca->c_size == cb->c_size && ca->c_alloc == cb->c_alloc, "seg: same chunk geometry");
-				__CPROVER_assert(ca->c_resid == cb->c_resid, "seg: same fill level");
-				__CPROVER_assert(ca->c_resid <= ca->c_alloc && ca->c_alloc == ca->c_size + 2, "seg: chunk well-formed");
-				if (g_k < ca->c_alloc - ca->c_resid) {
-					__CPROVER_assert(ca->c_data[g_k] == cb->c_data[g_k], "seg: same chunk bytes");
+	rvr = vp_ref_parse(&r, bufr, n, &lenr);
+	rv  = (int) nni_http_chunks_parse(&cl, buf, n, &len);
+
+	__CPROVER_assert(rv == rvr, "refines: same verdict as the RFC 7230 reference decoder");
+	__CPROVER_assert(len == lenr, "refines: same number of bytes consumed");
+	__CPROVER_assert(rv != NNG_EAGAIN || len == n, "refines: NNG_EAGAIN consumed everything");
+	if (rv == 0 || rv == NNG_EAGAIN) {
+		__CPROVER_assert((unsigned) cl.cl_state == r.st, "refines: same state");
+		__CPROVER_assert(cl.cl_size == r.size, "refines: same accumulated size");
+		__CPROVER_assert(cl.cl_line == r.line, "refines: same line count");
+		__CPROVER_assert(cl.cl_total == r.total, "refines: same total");
+		__CPROVER_assert(g_chl[0].n == r.nch, "refines: same number of chunks");
+		for (size_t i = 0; i < REF_NCH; i++) {
+			if (i < r.nch) {
+				nni_http_chunk *c = g_chl[0].item[i];
+				__CPROVER_assert((i + 1 == r.nch) ? (g_chl[0].last == c) : 1, "refines: last member");
+				__CPROVER_assert(c->c_size == r.csize[i] && c->c_alloc == r.csize[i] + 2, "refines: same chunk geometry");
+				__CPROVER_assert(c->c_alloc - c->c_resid == r.cfill[i], "refines: same fill level");
+				if (g_k < r.cfill[i]) {
+					__CPROVER_assert((uint8_t) c->c_data[g_k] == r.cbyte[i][g_k], "refines: same chunk bytes");
 				}
 			}
 		}
 	}
+	VP_CANARY();
+}
+
+static bool
+vp_ref_same(const vp_ref *a, const vp_ref *b)
+{
+	if (a->st != b->st || a->size != b->size || a->line != b->line || a->total != b->total || a->nch != b->nch || a->aseq != b->aseq) {
+		return (false);
+	}
+	for (size_t i = 0; i < REF_NCH; i++) {
+		if (i < a->nch) {
+			if (a->csize[i] != b->csize[i] || a->cfill[i] != b->cfill[i]) {
+				return (false);
+			}
+			if (g_k < a->cfill[i] && a->cbyte[i][g_k] != b->cbyte[i][g_k]) {
+				return (false);
+			}
+		}
+	}
+	return (true);
+}
+
+void
+h_ref_seg_lemma(void)
+{
+	vp_ref  a, b;
+	uint8_t buf[REF_N];
+	size_t  n = nondet_size_t(), k = nondet_size_t();
+	size_t  lena = 0, len1 = 0, len2 = 0, lenb;
+	int     rva, rvb;
+
+	__CPROVER_assume(n <= REF_N && k <= n);
+	g_k         = nondet_size_t();
+	g_fail_mask = nondet_size_t();
+	vp_ref_any(&a);
+	b = a;
+
+	rva  = vp_ref_parse(&a, buf, n, &lena);
+	rvb  = vp_ref_parse(&b, buf, k, &len1);
+	lenb = len1;
+	if (rvb == NNG_EAGAIN) {
+		__CPROVER_assert(len1 == k, "seg: NNG_EAGAIN consumed the whole first piece");
+		rvb  = vp_ref_parse(&b, buf + k, n - k, &len2);
+		lenb = k + len2;
+	}
+	__CPROVER_assert(rva == rvb, "seg: same verdict however the stream is cut");
+	__CPROVER_assert(lena == lenb, "seg: same number of bytes consumed");
+	__CPROVER_assert(rva != NNG_EAGAIN || lena == n, "seg: NNG_EAGAIN consumed everything");
+	__CPROVER_assert((rva != 0 && rva != NNG_EAGAIN) || vp_ref_same(&a, &b), "seg: same decoder state");
 	VP_CANARY();
 }
